@@ -93,6 +93,20 @@ def run(ctx, replay):
                                       f"Reproduce: cd /verif/harness && cargo build --offline && ./target/debug/lru-verif-harness --family stack --n {n}",
                                       {"n": n, "output": p.stdout[-1500:]})
                 violations.append((path, ""))
+    if ctx.prop == "C09" and not mons:
+        # search for a failing input among the disagreements: for HashMap / HashSet the model's heapSize *is*
+        # the documented floor (capacity x entry size + the elements' own heap_size, `C09_hash_bounds`), so an
+        # implementation value below it contradicts the property itself on that very value
+        for d in dis:
+            a, b = L.parse_fields(d["obs"]), L.parse_fields(d["pred"])
+            try:
+                ih, mh = int(a.get("heap", "x")), int(b.get("heap", "x"))
+            except ValueError:
+                continue
+            if ("hset" in d["ops"] or "hmap" in d["ops"]) and ih < mh:
+                mons.append({"type": d["ops"][:200], "msg": f"heap_size {ih} is below capacity x entry size + the elements' own heap_size = {mh} "
+                             f"for the value `{d['ops'][:400]}` (allocator holds {a.get('alloc')} bytes)"})
+                break
     if mons and not violations:
         m = mons[0]
         path = L.write_replay(ctx, "monitor", "", [], f"type {m['type']}: {m['msg']}", {"seed": ctx.seed, "type": m["type"]})
